@@ -91,6 +91,36 @@ class Run:
             self.coverage[f"{module}.{k}"] = self.coverage.get(f"{module}.{k}", 0) + v
         return res
 
+    def validate_traces(self, module: str, constants: dict, traces: list, name: str = None,
+                        timeout_s: int = 600, extra_cfg: str = "") -> dict:
+        """C->S batch trace validation.  traces = [{"tid": int, "ev": [...]}, ...].  Returns
+        {tid: (verdict, position)}; a missing verdict is a machinery failure."""
+        from .util import cfg_val
+        name = name or module
+        path = os.path.join(self.workdir, f"traces_{name}.ndjson")
+        with open(path, "w") as f:
+            for t in traces:
+                f.write(json.dumps(t, separators=(",", ":")) + "\n")
+        lines = ["SPECIFICATION TraceSpec"]
+        if constants:
+            lines.append("CONSTANTS")
+            for k, v in constants.items():
+                lines.append(f" {k} = {cfg_val(v)}")
+        lines.append("POSTCONDITION Done")
+        if extra_cfg:
+            lines.append(extra_cfg)
+        res = self.tlc(module, "\n".join(lines) + "\n", name=name, workers=1, timeout_s=timeout_s,
+                       env={"TRACE_FILE": path})
+        if res.violation is not None or res.timed_out:
+            raise _tlc.TLCError(f"trace validation {name} did not complete: {res.raw_tail[-2000:]}")
+        v = res.verdicts
+        if v.get(0, (None, None))[0] != "done" or v[0][1] != len(traces):
+            raise _tlc.TLCError(f"trace validation {name}: consumed {v.get(0)} of {len(traces)} traces\n{res.raw_tail[-1500:]}")
+        missing = [t["tid"] for t in traces if t["tid"] not in v]
+        if missing:
+            raise _tlc.TLCError(f"trace validation {name}: no verdict for traces {missing[:5]}")
+        return v
+
     def model_must_hold(self, res: _tlc.TLCResult) -> None:
         """A violation inside a *design* model that is not routed through replay is a machinery
         problem (the model is expected to satisfy its own invariants)."""
